@@ -233,6 +233,3 @@ func (c *checkCtx) registryTask() {
 		"assumed, not checked: sync.RWMutex provides mutual exclusion and the happens-before edges of the Go memory model; one critical section per operation with exclusive writers implies the operation is atomic at its acquisition, hence linearizable w.r.t. the sequential specification; Algorithm() of a service is pure and stable. No interleaving is enumerated.")
 }
 
-func (c *checkCtx) replay(o *Obligation) (bool, interface{}) {
-	return false, "no replay harness for this obligation kind"
-}
